@@ -60,6 +60,7 @@ type specCfg struct {
 	// Index bindings: value of x[k] for symbolic x (keyed "x[k]").
 	MaxDepth  int
 	MaxVisits int
+	MaxLoop   int // how often one block may be re-entered on a path (default 2)
 	Inline    func(f *ssa.Function) bool
 }
 
@@ -112,7 +113,11 @@ func (sr *specRun) fn(fn *ssa.Function, args []sval, depth int) []specOutcome {
 			sr.abort = "path explosion in " + fn.Name()
 			return
 		}
-		if onPath[b] >= 2 {
+		maxLoop := sr.cfg.MaxLoop
+		if maxLoop == 0 {
+			maxLoop = 2
+		}
+		if onPath[b] >= maxLoop {
 			outs = append(outs, specOutcome{Vals: []sval{symv("…loop")}, Cond: conds})
 			return
 		}
